@@ -50,9 +50,20 @@ class ExistingFileModifier:
         self._file_check = file_properties.must_exist_as(file_type, follow_symlinks=True)
         self._maker = maker
 
+    _PATH_MODIFICATION_FAILURE = 'Failed to modify path'
+
     def make(self, path: DescribedPath):
         self._assert_is_valid_path(path)
-        self._maker(path)
+        try:
+            self._maker(path)
+        except OSError as ex:
+            failure = failure_details.FailureDetails(
+                path_err_msgs.line_header__primitive__path(
+                    self._PATH_MODIFICATION_FAILURE,
+                    path),
+                ex
+            )
+            raise HardErrorException(_fd_rendering.FailureDetailsRenderer(failure))
 
     def _assert_is_valid_path(self, path: DescribedPath):
         result = self._file_check.apply(path.primitive)
